@@ -222,7 +222,7 @@ func sortStrings(a []string) {
 }
 
 var genvKeys = []string{"for", "true", "false", "null", "a", "b_1", "if", "in", "endfor", "a b", "", "1", "-", "a.b", "é", "for ", "${x}", "a-b", "_", "x\ny", "%{", "\""}
-var genvStrs = []string{"", "a", "for", "${x}", "%{if}", "$${", "\n", "\"", "\\", "a\tb", "é", "\x00", " ", "$", "%", "{", "}", "[0]", "-1"}
+var genvStrs = []string{" a\n\n", "\n b\n", "  first paragraph\n\n  second paragraph\n", "a\nb\n", "", "a", "for", "${x}", "%{if}", "$${", "\n", "\"", "\\", "a\tb", "é", "\x00", " ", "$", "%", "{", "}", "[0]", "-1"}
 var genvNums = []string{"0", "1", "2", "7", "10", "255", "0.5", "1.25", "1000000", "18446744073709551616", "0.001", "3.14159"}
 
 func genvValue(r *lib.Rand, depth int) cty.Value {
